@@ -1,10 +1,16 @@
 import MiniconfVerif.Props.C15
 import MiniconfVerif.Lemmas.PackedLsb
+import MiniconfVerif.Lemmas.WalkTotal
 
 /-! # C16 — no key or payload can make a tree operation panic
-(first instalment: the string splitters and the packed arithmetic — every slicing site
-and every shift/subtraction of the generated packed.rs expressions; the totality theorem
-for the tree walk is being added, see DESIGN.md §7 C16) -/
+
+In the model a panic site of the Rust code (slice off a char boundary, shift overflow,
+`unreachable!()`, index out of bounds) is the result value `Trav.panic site`; "no panic" is
+the statement that this value is never produced.  Proved: the string splitters, the packed
+arithmetic (over the expressions regenerated from packed.rs), every key source, and the whole
+by-key walk / type-level traversal on every well-formed tree whose nodes have at most 2^63
+children (beyond that: finding F5).  Panics inside serde/serde-json-core/postcard/heapless
+are outside the model (runs only). -/
 namespace MiniconfVerif.C16
 open MiniconfVerif MiniconfVerif.PathIter MiniconfVerif.Gen.Packed MiniconfVerif.PackedWord
 
@@ -34,5 +40,30 @@ theorem key_width_in_contract (len : BitVec 64) (hl : len ≠ 0) (h : len ≤ 0x
     keyBits len ≤ 63 := by
   simp only [keyBits, bitsFor, BITS]
   bv_decide
+
+/-- **Totality of every by-key operation**: for every well-formed tree in every runtime state
+whose lookups fit, every operation, every key source (arbitrary strings, integers, packed
+words, chains) and every (de)serializer behaviour, the walk returns a result — no panic site
+is reached. -/
+theorem walk_total (io : Io) (op : Op) (t : Tree) (ks : KeySrc) (hwf : t.WF) (hfit : t.Fits) :
+    (t.walk io op ks).res.isPanic = false :=
+  walk_no_panic io op t ks hwf hfit
+
+/-- the same for the type-level traversal behind `transcode` and `nodes()`, with any callback -/
+theorem traverse_total {σ : Type} (cb : σ → CbArg → Option σ) (s : Schema) (ks : KeySrc) (st : σ)
+    (hwf : s.WF) (hfit : s.Fits) : (s.traverse cb ks st).1.isPanic = false :=
+  traverse_no_panic cb s ks st hwf hfit
+
+/-- no key source panics in `Keys::next` / `finalize`, and every index it yields is in range -/
+theorem keys_total (ks : KeySrc) (lk : Lookup) (hfit : lk.fits) :
+    (∀ e, ks.next lk = .error e → e.isPanic = false) ∧ (∀ e, ks.finalize = .error e → e.isPanic = false) ∧
+    (∀ i ks', ks.next lk = .ok (i, ks') → i < lk.len) :=
+  ⟨next_no_panic ks lk hfit, finalize_no_panic ks, fun i ks' h => next_lt ks lk i ks' h⟩
+
+/-! ## non-vacuity: the excluded region is where F5 lives -/
+example : ¬ (Lookup.homog (2 ^ 63 + 1)).fits := by unfold Lookup.fits; decide
+example : (Lookup.homog (2 ^ 63)).fits := by unfold Lookup.fits; decide
+example : (match (KeySrc.packed 1#64).next (.homog (2 ^ 63 + 1)) with
+    | .error (.panic _) => true | _ => false) = true := by decide +kernel
 
 end MiniconfVerif.C16
